@@ -541,6 +541,68 @@ func run(repo string) (string, error) {
 		return "", err
 	}
 	scan("dos_query_handler.go", fsetQ, qh)
+	// round 5 (review H #1): EVERY statement in which the field `participants` occurs in any position (left-hand
+	// side sub-expression such as participants[i] = …, argument of copy / append / sort.*, range operand, read),
+	// and every statement of pdkg.Grouping that mentions the parameter `groupIds` (the stored slice shares its
+	// backing array with it)
+	var pu, gu []string
+	uses := func(tag string, fset *token.FileSet, root ast.Node, isUse func(ast.Node) bool, out *[]string) {
+		var stack []ast.Node
+		seen := map[ast.Node]bool{}
+		ast.Inspect(root, func(n ast.Node) bool {
+			if n == nil {
+				stack = stack[:len(stack)-1]
+				return true
+			}
+			if isUse(n) {
+				for i := len(stack) - 1; i >= 0; i-- {
+					st, ok := stack[i].(ast.Stmt)
+					if _, blk := stack[i].(*ast.BlockStmt); ok && !blk {
+						if !seen[st] {
+							seen[st] = true
+							t := src(fset, st)
+							if k := strings.Index(t, " {"); k >= 0 {
+								if _, simple := st.(*ast.AssignStmt); !simple {
+									t = t[:k]
+								}
+							}
+							*out = append(*out, tag+": "+t)
+						}
+						break
+					}
+				}
+			}
+			stack = append(stack, n)
+			return true
+		})
+	}
+	isPart := func(n ast.Node) bool {
+		sel, ok := n.(*ast.SelectorExpr)
+		return ok && sel.Sel.Name == "participants"
+	}
+	uses("pdkg.go", fsetD, pd, isPart, &pu)
+	uses("pdkg_pipes.go", fsetP, pp, isPart, &pu)
+	uses("dos_chain_handler.go", fsetC, ch, isPart, &pu)
+	uses("dos_stages.go", fset, st, isPart, &pu)
+	uses("dos_query_handler.go", fsetQ, qh, isPart, &pu)
+	uses("Grouping", fsetD, gr.Body, func(n ast.Node) bool {
+		id, ok := n.(*ast.Ident)
+		return ok && id.Name == "groupIds"
+	}, &gu)
+	s += "/-- every statement of pdkg.go, pdkg_pipes.go and the dosnode files in which the field `participants` occurs in ANY position -/\n" + leanList("participantsUses", pu)
+	s += "/-- every statement of pdkg.Grouping that mentions its parameter `groupIds` (the announced list; the stored slice IS this slice) -/\n" + leanList("groupIdsUses", gu)
+
+	// round 5 (review H #3, seed C07f): the whole bodies of handleQuery (the wiring of the stages) and handleCR
+	// (started by onchainLoop with the *big.Int of the latest request event)
+	hq := ex.FuncDecl(qh, "DosNode", "handleQuery")
+	hcr := ex.FuncDecl(ch, "DosNode", "handleCR")
+	if hq == nil || hcr == nil {
+		return "", fmt.Errorf("handleQuery / handleCR not found")
+	}
+	s += "/-- handleQuery: every statement in order (logging left out) -/\n" + leanList("handleQuery", skeleton(fsetQ, hq))
+	s += leanList("handleQueryRefs", pkgRefs(qh, hq))
+	s += "/-- handleCR: every statement in order (logging left out) -/\n" + leanList("handleCR", skeleton(fsetC, hcr))
+
 	s += "/-- every write of a `participants` field / literal key in pdkg.go, pdkg_pipes.go and the dosnode files -/\n" + leanList("participantsWrites", pw)
 	s += "/-- every use of package sort in those files -/\n" + leanList("sortUses", sorts)
 	s += "end Dos.Gen.DosnodeFlow\n"
